@@ -98,29 +98,33 @@ def rule_clip(ctx):
     if len(inners) != 1:
         raise AnalysisError(f'{g.key}: nested reader not found')
     inner = inners[0]
-    d = df.defs(inner)
-    dc = [s for s in inner.own_nodes() if isinstance(s, ast.Assign) and isinstance(s.value, ast.Call) and norm(s.value.func) == 'max']
-    ok1 = len(dc) == 1 and norm(dc[0].value) == f'max(0, min({g.params[2]}, self.state.height + 1 - {g.params[1]}))'
-    dcv = norm(dc[0].targets[0]) if dc else None
+    # per return path of the reader, locals expressed in its inputs: either (b'', 0), or
+    # (headers_file.read(start * 80, N * 80), N) with N = max(0, min(count, state.height + 1 - start))
+    from .. import paths as P
+    want = f'max(0, min({g.params[2]}, self.state.height + 1 - {g.params[1]}))'
+    ok1 = ok2 = True
+    n_read = 0
+    for pth in P.returns(inner.node):
+        v = pth.value
+        if not (isinstance(v, ast.Tuple) and len(v.elts) == 2):
+            ok1 = ok2 = False
+            break
+        a_, b_ = v.elts
+        if isinstance(a_, ast.Call) and norm(a_.func) == 'self.headers_file.read' and len(a_.args) == 2:
+            n_read += 1
+            off, size = a_.args
+            ok1 = ok1 and norm(b_) == want
+            ok2 = ok2 and norm(size) in (f'{norm(b_)} * 80', f'80 * {norm(b_)}') and norm(off) in (f'{g.params[1]} * 80', f'80 * {g.params[1]}')
+        else:
+            ok2 = ok2 and const_value(a_) == b'' and const_value(b_) == 0
+            # the empty answer is given only when nothing is available
+            ok1 = ok1 and P.truthy(pth, want) is False
+    ok1 = ok1 and n_read >= 1
+    ok2 = ok2 and n_read >= 1
     ctx.check(ok1, 'C17.CLIP', ctx.key(g, None, 'available count'),
               'the number of headers read is min(count, headers up to the flushed height), never negative',
               'the number of headers read is not max(0, min(count, state.height + 1 - start))', loc=ctx.loc(g, g.node))
     n += 1
-    rets = [s for s in inner.own_nodes() if isinstance(s, ast.Return) and isinstance(s.value, ast.Tuple)]
-    ok2 = bool(rets)
-    for r in rets:
-        a, b = r.value.elts
-        if isinstance(a, ast.Call) and norm(a.func) == 'self.headers_file.read':
-            off, size = a.args
-
-            def val(e):
-                if isinstance(e, ast.Name) and len(d.get(e.id, [])) == 1:
-                    return d[e.id][0][1]
-                return e
-            off, size = val(off), val(size)
-            ok2 = ok2 and norm(b) == dcv and norm(size) in (f'{dcv} * 80', f'80 * {dcv}') and norm(off) in (f'{g.params[1]} * 80', f'80 * {g.params[1]}')
-        else:
-            ok2 = ok2 and const_value(a) == b'' and const_value(b) == 0
     ctx.check(ok2, 'C17.CLIP', ctx.key(g, None, 'reads what it reports'),
               'exactly count-reported * 80 bytes are read at start * 80',
               'the bytes read do not correspond to the count reported (size must be reported_count * 80 at start * 80): '
@@ -210,21 +214,23 @@ def rule_generator_limit(ctx, rule):
 def rule_unsub(ctx):
     f = ctx.func('sess', 'ElectrumX.subscription_address_status')
     n = 0
-    trs = [s for s in f.node.body if isinstance(s, ast.Try)]
-    ok = False
-    if len(trs) == 1:
-        t = trs[0]
-        body_ok = len(t.body) == 1 and isinstance(t.body[0], ast.Return) and isinstance(t.body[0].value, ast.Await) and \
-            q.callee_name(ctx, f, t.body[0].value.value) == 'self.address_status'
-        hs = [h for h in t.handlers if h.type is not None and norm(h.type).split('.')[-1] == 'RPCError']
-        h_ok = False
-        if len(hs) == 1:
-            calls = [c for c in walk_own(hs[0]) if isinstance(c, ast.Call) and q.callee_name(ctx, f, c) == 'self.unsubscribe_hashX'
-                     and norm(c.args[0]) == f.params[1]]
-            rets = [r for r in hs[0].body if isinstance(r, ast.Return)]
-            h_ok = len(calls) == 1 and len(rets) == 1 and (rets[0].value is None or norm(rets[0].value) == 'None') \
-                and q.stmt(calls[0]).lineno < rets[0].lineno
-        ok = body_ok and h_ok
+    # per return path: the normal path returns the awaited address_status(hashX); the RPCError path unsubscribes the script
+    # hash and returns None (one return or two, a result variable or not)
+    from .. import paths as P
+    normal = handled = 0
+    ok = True
+    for pth in P.returns(f.node):
+        hnd = [nd for _t, _pol, nd in pth.conds if isinstance(nd, ast.ExceptHandler)]
+        unsub = [st_ for st_, _e in pth.events if isinstance(st_, (ast.Expr, ast.Assign)) for c in ast.walk(st_) if isinstance(c, ast.Call)
+                 and q.callee_name(ctx, f, c) == 'self.unsubscribe_hashX' and c.args and norm(c.args[0]) == f.params[1]]
+        if not hnd:
+            normal += 1
+            ok = ok and norm(pth.value) == f'await self.address_status({f.params[1]})' and not unsub
+        else:
+            handled += 1
+            names = [norm(x).split('.')[-1] for h_ in hnd for x in ((h_.type.elts if isinstance(h_.type, ast.Tuple) else [h_.type]) if h_.type else [])]
+            ok = ok and names == ['RPCError'] and len(unsub) == 1 and isinstance(pth.value, ast.Constant) and pth.value.value is None
+    ok = ok and normal >= 1 and handled >= 1
     ctx.check(ok, 'C17.UNSUB', ctx.key(f, None, 'dropped on error'),
               'a subscription whose status raises RPCError is unsubscribed and reported as None',
               'a subscription whose status cannot be computed is not dropped (unsubscribe_hashX + return None under except RPCError)',
